@@ -465,6 +465,22 @@ def part_probabilities(run, rng, be, count):
         if i >= count:
             n, qs, dm = forced[i - count]
         label = f"probs_{'dm' if dm else 'sv'}:n={n}:qs={','.join(map(str, qs))}:case{i}"
+        try:
+            nontriv = _probabilities_case(crng, be, i, n, qs, dm, label, items, meta)
+        except Exception as e:  # the implementation under test raised / returned inexact values
+            run.case({"probs": label, "raised": True}, False)
+            run.find(label.rsplit(":case", 1)[0] + ":raised", "computing the probabilities raised or returned non-integer values for integer data: " + repr(e)[:200],
+                     {"part": "probs", "case": i, "n": n, "qubits": qs, "density_matrix": dm, "raised": repr(e)[:300]})
+            continue
+        run.case({"probs": label, "impl": meta[-1][1]["impl"]}, nontriv)
+        if i < 2:
+            run.sample(meta[-1][1])
+    _probabilities_finish(run, be, items, meta)
+
+
+def _probabilities_case(crng, be, i, n, qs, dm, label, items, meta):
+    from qibo import Circuit, gates
+    if True:
         if not dm:
             psi = gauss_state(crng, n)
             arr = np.array(psi, dtype=complex)
@@ -503,9 +519,10 @@ def part_probabilities(run, rng, be, count):
             items.append((label + ":spec", f"list_eqb Z.eqb (map (fun s => Z.abs (fst s)) (born_vec_zi {n}%nat {nat_list(qs)} (dm_diag {zi_mat(rho)}))) {z_list(ints)}"))
             meta.append((label, {"part": "probs", "case": i, "n": n, "qubits": qs, "rho": [[str(a) for a in row] for row in rho], "path": path, "impl": ints}))
             nontriv = qs != list(range(n))
-        run.case({"probs": label, "impl": ints}, nontriv)
-        if i < 2:
-            run.sample(meta[-1][1])
+    return nontriv
+
+
+def _probabilities_finish(run, be, items, meta):
     res = {}
     for ci in range(0, len(items), 400):
         part, _ = run.coq_bools(f"probs_{ci // 400}.v", HEADER, items[ci:ci + 400], timeout=900)
@@ -548,11 +565,17 @@ def part_conversions(run, rng, be, count):
         ns = crng.randint(1, 12)
         samples = [crng.randrange(2 ** k) for _ in range(ns)]
         arr = np.array(samples)
-        b = be.samples_to_binary(arr, k)
-        d = be.samples_to_decimal(b, k)
-        f = be.calculate_frequencies(arr)
-        fb = frequencies_to_binary(f, k)
         label = f"conv:k={k}:case{i}"
+        try:
+            b = be.samples_to_binary(arr, k)
+            d = be.samples_to_decimal(b, k)
+            f = be.calculate_frequencies(arr)
+            fb = frequencies_to_binary(f, k)
+        except Exception as e:  # noqa
+            run.case({"conv": samples, "k": k, "raised": True}, False)
+            run.find(f"conv:k={k}:raised", "a conversion / counting function raised: " + repr(e)[:200],
+                     {"part": "conv", "case": i, "k": k, "samples": samples, "raised": repr(e)[:300]})
+            continue
         items.append((label + ":to_bin", f"list_eqb bits_eqb (map (to_bin {k}%nat) {nat_list(samples)}) {bits_list(np.asarray(b).tolist())}"))
         items.append((label + ":to_dec", f"list_eqb Nat.eqb (map to_dec {bits_list(np.asarray(b).tolist())}) {nat_list(np.asarray(d).tolist())}"))
         items.append((label + ":freq", f"counter_eqb (calc_freq {nat_list(samples)}) {counter_lit(f)}"))
@@ -648,9 +671,17 @@ def judge_history(run, hr, val, key_prefix, info, shared_key=None):
 def part_views(run, rng, be, count):
     exprs, hrs = [], []
     for i in range(count):
-        hr = one_view_history(run, be, i)
+        try:
+            hr = one_view_history(run, be, i)
+            expr = hr.coq_case()
+        except Exception as e:  # noqa
+            run.case({"views": i, "raised": True}, False)
+            run.find("views:raised", "executing a circuit with measurements / reading a view raised: " + repr(e)[:200],
+                     {"part": "views", "case": i, "raised": repr(e)[:300]})
+            continue
+        hr.case_index = i
         hrs.append(hr)
-        exprs.append(hr.coq_case())
+        exprs.append(expr)
         kinds = {(e["op"], e.get("binary"), e.get("registers")) for e in hr.log}
         run.case({"views": hr.log, "regs": hr.regs}, len(kinds) >= 3 and len(hr.regs[0]) + len(hr.regs) > 2)
         if i < 2:
@@ -660,9 +691,9 @@ def part_views(run, rng, be, count):
         run.oblige("correspondence:result_views", False, "correspondence")
         run.find("views:coq-failed", "generated histories file did not compile", {}, concrete=False)
         return
-    ok_all = True
+    ok_all = not any(f.key == "views:raised" for f in run.findings)
     for i, (hr, v) in enumerate(zip(hrs, vals)):
-        info = {"part": "views", "case": i, "n": hr.n, "registers": hr.regs, "history": hr.log}
+        info = {"part": "views", "case": getattr(hr, "case_index", i), "n": hr.n, "registers": hr.regs, "history": hr.log}
         ok_all &= judge_history(run, hr, v, f"views:regs={hr.regs}".replace(" ", ""), info)
     run.oblige("correspondence:result_views", ok_all, "correspondence")
 
@@ -696,15 +727,20 @@ def random_post_gates(rng, n):
 
 
 def parse_collapse(val):
-    """(recorded, Some collapsed, norm2, Some final, spec_ok, sorted_ok) as printed by Coq"""
+    """(recorded, Some collapsed, norm2, Some final, spec_ok, sorted_ok[, (projection, norm2)]) as printed by Coq;
+    returns a 6-tuple, or an 8-tuple when the projection onto the recorded outcome is included"""
     v = val.replace("%Z", "").replace("%nat", "")
-    parts = re.match(r"\(\s*(\[.*?\]|nil),\s*(Some \[.*?\]|None),\s*(-?\d+),\s*(Some \[.*?\]|None),\s*(true|false),\s*(true|false)\)$", v)
+    parts = re.match(r"\(\s*(\[.*?\]|nil),\s*(Some \[.*?\]|None),\s*(-?\d+),\s*(Some \[.*?\]|None),\s*(true|false),\s*(true|false)"
+                     r"(?:,\s*\(\s*(\[.*?\]|nil),\s*(-?\d+)\))?\)$", v)
     if not parts:
         return None
     rec = [t == "true" for t in re.findall(r"true|false", parts.group(1))]
     col = None if parts.group(2) == "None" else parse_ints(parts.group(2))
     fin = None if parts.group(4) == "None" else parse_ints(parts.group(4))
-    return rec, col, int(parts.group(3)), fin, parts.group(5) == "true", parts.group(6) == "true"
+    base = (rec, col, int(parts.group(3)), fin, parts.group(5) == "true", parts.group(6) == "true")
+    if parts.group(7) is not None:
+        return base + (parse_ints(parts.group(7)), int(parts.group(8)))
+    return base
 
 
 def pairs_to_complex(flat):
@@ -727,12 +763,14 @@ def collapse_circuit_case(run, be, i):
     for g, _, _ in post:
         c.add(g)
     c.add(gates.M(*range(n)))
-    calls, finals = [], []
+    calls, finals, draws = [], [], []
     orig_collapse = be.collapse_state
     orig_cr = qnp.CircuitResult
+    orig_shots = be.sample_shots
 
     def collapse_state(state, qubits, shot, nqubits, normalize=True):
-        out = orig_collapse(state, qubits, shot, nqubits, normalize)
+        with np.errstate(all="ignore"):
+            out = orig_collapse(state, qubits, shot, nqubits, normalize)
         calls.append((np.array(state, copy=True), list(qubits), int(np.asarray(shot).ravel()[0]), np.array(out, copy=True), normalize))
         return out
 
@@ -740,57 +778,104 @@ def collapse_circuit_case(run, be, i):
         finals.append(np.array(state, copy=True))
         return orig_cr(state, *a, **kw)
 
+    def shots(probabilities, ns):
+        out = orig_shots(probabilities, ns)
+        draws.append([int(v) for v in np.asarray(out).tolist()])
+        return out
+
     be.collapse_state = collapse_state
+    be.sample_shots = shots
     qnp.CircuitResult = circuit_result
+    error, res_samples = None, None
     try:
         be.set_seed(crng.randrange(2 ** 31))
         psi = np.array(ints, dtype=complex) / 2 ** j
         res = c(initial_state=psi.copy(), nshots=nshots)
+        res_samples = np.asarray(res.samples()).tolist()
+    except Exception as e:  # the implementation under test raised: judge the shots completed so far
+        error = repr(e)[:300]
     finally:
         del be.collapse_state
+        del be.sample_shots
         qnp.CircuitResult = orig_cr
     recorded = [[int(b) for b in np.asarray(s).tolist()] for s in (mres._samples or [])]
     cases = []
-    for s in range(nshots):
-        st_in, qubits, shot, st_out, normalize = calls[s]
-        in_ints = exact_ints(np.concatenate([st_in.real, st_in.imag]), 2 ** j)
+    for s in range(min(nshots, len(calls))):
+        st_in, qubits, shot_passed, st_out, normalize = calls[s]
+        # the shot the sampler drew for this collapse (oracle for the model): 2 draws per completed shot
+        drawn = draws[2 * s][0] if len(draws) > 2 * s else shot_passed
+        try:
+            in_ints = exact_ints(np.concatenate([st_in.real, st_in.imag]), 2 ** j)
+        except (AssertionError, ValueError, OverflowError):
+            error = error or "the state entering the measurement is not the exact input state (NaN/inexact)"
+            break
         dim = 2 ** n
         psi_in = [complex(in_ints[x], in_ints[dim + x]) for x in range(dim)]
         rec_s = recorded[s] if s < len(recorded) else []
-        expr = (f"collapse_case {n}%nat {nat_list(tq)} {shot}%nat {zi_list(psi_in)} "
-                f"[{'; '.join(t for _, t, _ in post)}] {bits_lit(rec_s)}")
-        cases.append({"expr": expr, "tq": tq, "n": n, "shot": shot, "j": j, "psi_in": psi_in, "qubits_passed": qubits,
-                      "recorded": recorded[s] if s < len(recorded) else None, "st_out": st_out, "final": finals[s] if s < len(finals) else None,
-                      "post": [t for _, _, t in post], "final_samples": np.asarray(res.samples()).tolist()[s] if s < nshots else None,
-                      "case": i, "shot_index": s})
+        expr = (f"(collapse_case {n}%nat {nat_list(tq)} {drawn}%nat {zi_list(psi_in)} "
+                f"[{'; '.join(t for _, t, _ in post)}] {bits_lit(rec_s)}, "
+                f"projection_on_recorded {n}%nat {nat_list(tq)} {zi_list(psi_in)} {bits_lit(rec_s)})")
+        cases.append({"expr": expr, "tq": tq, "n": n, "shot": drawn, "shot_passed_to_collapse_state": shot_passed, "j": j, "psi_in": psi_in,
+                      "qubits_passed": qubits, "recorded": recorded[s] if s < len(recorded) else None, "st_out": st_out,
+                      "final": finals[s] if s < len(finals) else None, "post": [t for _, _, t in post],
+                      "final_samples": res_samples[s] if res_samples is not None and s < len(res_samples) else None,
+                      "case": i, "shot_index": s, "error": error})
+    if error and not cases:
+        cases.append({"expr": None, "tq": tq, "n": n, "j": j, "psi_in": [complex(a) for a in ints], "post": [t for _, _, t in post],
+                      "case": i, "shot_index": 0, "error": error, "recorded": None, "shot": None})
+    elif error:
+        cases[-1]["error"] = error
     return cases
 
 
-def part_collapse(run, rng, be, count):
+def part_collapse(run, rng, be, count, only=None):
     all_cases = []
-    for i in range(count):
-        all_cases += collapse_circuit_case(run, be, i)
-    vals = eval_cases(run, "collapse", [c["expr"] for c in all_cases], chunk=80)
+    for i in (range(count) if only is None else only):
+        try:
+            all_cases += collapse_circuit_case(run, be, i)
+        except Exception as e:  # noqa
+            all_cases.append({"expr": None, "tq": [], "n": 0, "j": 0, "psi_in": [], "post": [], "case": i, "shot_index": 0,
+                              "error": "harness: " + repr(e)[:300], "recorded": None, "shot": None})
+    with_expr = [c for c in all_cases if c["expr"] is not None]
+    vals = eval_cases(run, "collapse", [c["expr"] for c in with_expr], chunk=80)
     if vals is None:
         run.oblige("correspondence:collapse", False, "correspondence")
         run.find("collapse:coq-failed", "generated collapse file did not compile", {}, concrete=False)
         return
+    answers = {id(c): v for c, v in zip(with_expr, vals)}
     ok_all = True
-    for c, v in zip(all_cases, vals):
-        p = parse_collapse(v)
+    for c in all_cases:
         tqs = ",".join(map(str, c["tq"]))
         srt = "sorted" if c["tq"] == sorted(c["tq"]) else "unsorted"
         info = {"part": "collapse", "case": c["case"], "shot_index": c["shot_index"], "n": c["n"], "M": f"M({tqs}, collapse=True)",
                 "state_times_2^j": [str(a) for a in c["psi_in"]], "j": c["j"], "drawn_shot": c["shot"], "recorded": c["recorded"], "post_gates": c["post"]}
+        if "shot_passed_to_collapse_state" in c:
+            info["shot_passed_to_collapse_state"] = c["shot_passed_to_collapse_state"]
         run.case({"collapse": info}, len(c["tq"]) >= 2 or c["n"] >= 3)
         if len(run.samples) < 6 and c["shot_index"] == 0 and c["case"] < 2:
             run.sample(info)
-        if p is None:
+        if c.get("error"):
+            ok_all = False
+            run.find(f"collapse:raised:{srt}:M({tqs})", "executing a circuit with a collapsing measurement followed by gates and a final "
+                     "measurement raised (or produced a non-finite state): " + c["error"], dict(info, raised=c["error"]))
+        if c["expr"] is None:
+            continue
+        p = parse_collapse(answers[id(c)])
+        if p is None or len(p) != 8:
             ok_all = False
             run.find(f"collapse:{srt}:M({tqs}):unparsable", "could not parse the Coq answer", info, concrete=False)
             continue
-        rec, col, norm2, fin, spec_ok, sorted_ok = p
+        rec, col, norm2, fin, spec_ok, sorted_ok, proj, pnorm2 = p
         scale = 2 ** c["j"]
+        # specification, judged on the implementation's own output: the state after the measurement is the
+        # normalised projection onto the outcome it recorded (bits in the order of the gate's qubits)
+        with np.errstate(all="ignore"):
+            exp_spec = (pairs_to_complex(proj) / scale) / np.sqrt(np.float64(pnorm2) / np.float64(4 ** c["j"]))
+        if pnorm2 == 0 or not np.array_equal(exp_spec, c["st_out"]):
+            ok_all = False
+            run.find(f"collapse:projection_on_recorded_outcome:{srt}:M({tqs})",
+                     "the state after M(..., collapse=True) is not the normalised projection onto the outcome recorded for that shot "
+                     "(bits read in the order of the gate's qubits)" + ("; the recorded outcome has probability zero" if pnorm2 == 0 else ""), info)
         good = True
         if col is None or fin is None:
             good = False
@@ -801,7 +886,8 @@ def part_collapse(run, rng, be, count):
             exp_out = (pairs_to_complex(col) / scale) / nrm
             exp_fin = (pairs_to_complex(fin) / scale) / nrm
             good &= np.array_equal(exp_out, c["st_out"])
-            good &= c["final"] is not None and np.array_equal(exp_fin, c["final"])
+            if not c.get("error"):
+                good &= c["final"] is not None and np.array_equal(exp_fin, c["final"])
             good &= c["recorded"] is not None and [bool(b) for b in c["recorded"]] == rec
             # the final measurement of all qubits must see the collapsed outcome
             if c["final"] is not None and c["final_samples"] is not None:
@@ -903,7 +989,14 @@ def part_symbols(run, rng, be, count):
             c.add(g)
             cond.append(g)
         c.add(gates.M(*range(n)))
-        c(initial_state=psi, nshots=1)
+        try:
+            c(initial_state=psi, nshots=1)
+        except Exception as e:  # noqa
+            ok_all = False
+            run.case({"symbols": i, "raised": True}, False)
+            run.find(f"symbols:raised:M({','.join(map(str, tq))})", "executing a circuit with a gate conditioned on result.symbols raised: " + repr(e)[:200],
+                     {"part": "symbols", "case": i, "n": n, "M": f"M({','.join(map(str, tq))}, collapse=True)", "basis_state_bits": x, "raised": repr(e)[:300]})
+            continue
         seen = [float(g.parameters[0]) for g in cond]
         want = [float(x[q]) for q in tq]
         tqs = ",".join(map(str, tq))
@@ -967,8 +1060,17 @@ def part_repeated(run, rng, be, count):
         ints, j = dyadic_state(crng, n)
         nshots = crng.randint(1, 6)
         be.set_seed(crng.randrange(2 ** 31))
-        r = c(initial_state=np.array(ints, dtype=complex) / 2 ** j, nshots=nshots)
-        S = [int(x) for x in np.asarray(r.samples(binary=False)).tolist()]
+        try:
+            with np.errstate(all="ignore"):
+                r = c(initial_state=np.array(ints, dtype=complex) / 2 ** j, nshots=nshots)
+            S = [int(x) for x in np.asarray(r.samples(binary=False)).tolist()]
+            terms = view_terms(r, c.measurements, regs, "repeated", run, {"part": "repeated", "case": i})
+        except Exception as e:  # noqa
+            run.case({"repeated": i, "raised": True}, False)
+            run.find("repeated:raised", "shot-by-shot execution of a circuit with a collapsing measurement (or reading its result) raised: " + repr(e)[:200],
+                     {"part": "repeated", "case": i, "n": n, "collapse": f"M({','.join(map(str, cq))}, collapse=True)", "registers": regs,
+                      "state_times_2^j": [str(a) for a in ints], "j": j, "nshots": nshots, "raised": repr(e)[:300]})
+            continue
         info = {"part": "repeated", "case": i, "n": n, "collapse": f"M({','.join(map(str, cq))}, collapse=True)", "registers": regs,
                 "state_times_2^j": [str(a) for a in ints], "j": j, "nshots": nshots, "samples": S}
         run.case({"repeated": info}, len(regs) > 1 or len(regs[0]) > 1)
@@ -977,7 +1079,7 @@ def part_repeated(run, rng, be, count):
         if len(S) != nshots:
             run.find("repeated:nshots", "number of samples differs from nshots", info)
         cfg = f"(mkcfg {n}%nat {nat_list_list(regs)})"
-        for label, op, out in view_terms(r, c.measurements, regs, "repeated", run, info):
+        for label, op, out in terms:
             items.append((f"repeated:case{i}:{label}", f"explainsb {cfg} (@nil Z) {nat_list(S)} ({op}) ({out})"))
             meta.append((f"repeated:case{i}:{label}", info, label))
             items.append((f"repeated:case{i}:{label}:model", f"out_eqb (rep_view {cfg} {nat_list(S)} ({op})) ({out})"))
@@ -1483,8 +1585,14 @@ def part_batches(run, rng, be, count, only=None):
                 c.add(gates.M(*reg))
             qibo.set_batch_size(batch)
             be.set_seed(crng.randrange(2 ** 31))
-            r = c(initial_state=(np.outer(psi, psi.conj()) if dm else psi), nshots=nshots)
-            F = r.frequencies(binary=False)
+            try:
+                r = c(initial_state=(np.outer(psi, psi.conj()) if dm else psi), nshots=nshots)
+                F = r.frequencies(binary=False)
+            except Exception as e:  # noqa
+                run.case({"batches": i, "raised": True}, False)
+                run.find("batches:raised", "executing the circuit / frequencies() raised: " + repr(e)[:200],
+                         {"part": "batches", "case": i, "n": n, "registers": regs, "density_matrix": dm, "batch_size": batch, "nshots": nshots, "raised": repr(e)[:300]})
+                continue
             w = [int(abs(a) ** 2) for a in ints]
             try:
                 FR = r.frequencies(binary=False, registers=True)
@@ -1573,6 +1681,17 @@ def static_obligations(run, theory):
     return names
 
 
+def safe_part(run, name, fn):
+    """last line of defence: an exception escaping a part (every part already turns exceptions of the
+    implementation under test into concrete findings with the input) must not stop the other parts"""
+    import traceback
+    try:
+        fn()
+    except Exception:  # noqa
+        tb = traceback.format_exc()
+        run.find(f"{name}:part_aborted", f"part {name} aborted: " + tb[-600:], {"part": name, "traceback": tb[-2000:]}, concrete=False)
+
+
 def coqchk(run, module):
     """thorough tier: re-check the compiled cone of the Props file with the independent checker"""
     rc, out = vcore.sh(f"timeout 1500 coqchk -silent -o -Q theories QV {module}", timeout=1600, cwd=vcore.COQ)
@@ -1598,17 +1717,17 @@ def main(run):
     run.notes["model_follows"] = ("the repaired tree: MeasurementResult.add_shot records the bits in the gate's own qubit order; "
                                   "frequencies(registers=True) honours `registers` for repeated-execution results")
     b = budgets(run.tier)
-    part_probabilities(run, rng, be, b["probs"])
-    part_conversions(run, rng, be, b["conv"])
-    part_views(run, rng, be, b["views"])
-    part_collapse(run, rng, be, b["collapse"])
-    part_collapse_direct(run, rng, be, b["direct"])
-    part_symbols(run, rng, be, b["symbols"])
-    part_repeated(run, rng, be, b["repeated"])
-    part_bookkeeping(run, rng, be, b["bookkeeping"])
-    part_bitflip(run, rng, be, b["bitflip"])
-    part_conditioned(run, rng, be, b["conditioned"])
-    part_batches(run, rng, be, b["batches"])
+    safe_part(run, "probs", lambda: part_probabilities(run, rng, be, b["probs"]))
+    safe_part(run, "conv", lambda: part_conversions(run, rng, be, b["conv"]))
+    safe_part(run, "views", lambda: part_views(run, rng, be, b["views"]))
+    safe_part(run, "collapse", lambda: part_collapse(run, rng, be, b["collapse"]))
+    safe_part(run, "collapse_direct", lambda: part_collapse_direct(run, rng, be, b["direct"]))
+    safe_part(run, "symbols", lambda: part_symbols(run, rng, be, b["symbols"]))
+    safe_part(run, "repeated", lambda: part_repeated(run, rng, be, b["repeated"]))
+    safe_part(run, "bookkeeping", lambda: part_bookkeeping(run, rng, be, b["bookkeeping"]))
+    safe_part(run, "bitflip", lambda: part_bitflip(run, rng, be, b["bitflip"]))
+    safe_part(run, "conditioned", lambda: part_conditioned(run, rng, be, b["conditioned"]))
+    safe_part(run, "batches", lambda: part_batches(run, rng, be, b["batches"]))
     return run.finish(rule=RULE)
 
 
@@ -1618,14 +1737,15 @@ def replay(run, data):
     part, i = rp.get("part"), rp.get("case")
     run.seed = data.get("seed", run.seed)
     if part == "views":
-        hr = one_view_history(run, be, i)
-        vals = eval_cases(run, "replay_views", [hr.coq_case()])
-        if vals:
-            judge_history(run, hr, vals[0], f"views:regs={hr.regs}".replace(" ", ""), rp)
+        try:
+            hr = one_view_history(run, be, i)
+            vals = eval_cases(run, "replay_views", [hr.coq_case()])
+            if vals:
+                judge_history(run, hr, vals[0], f"views:regs={hr.regs}".replace(" ", ""), rp)
+        except Exception as e:  # noqa
+            run.find("views:raised", "executing a circuit with measurements / reading a view raised: " + repr(e)[:200], rp)
     elif part == "collapse":
-        cases = collapse_circuit_case(run, be, i)
-        run.notes["replayed"] = [c["expr"] for c in cases]
-        part_collapse_single(run, be, cases)
+        part_collapse(run, None, be, 0, only=[i])
     elif part == "symbols":
         part_symbols_range(run, be, [i])
     elif part == "conditioned":
@@ -1651,6 +1771,10 @@ def replay(run, data):
 
 
 def part_collapse_single(run, be, cases):
+    for c in cases:
+        if c.get("error"):
+            run.find("collapse:raised", "executing the circuit raised: " + c["error"], {"case": c["case"]})
+    cases = [c for c in cases if c["expr"] is not None]
     vals = eval_cases(run, "replay_collapse", [c["expr"] for c in cases])
     for c, v in zip(cases or [], vals or []):
         p = parse_collapse(v)
